@@ -22,7 +22,10 @@ def send_cases(ctx):
     r = lib.rng("C04")
     rb = lambda n: bytes(r.getrandbits(8) for _ in range(n))
     out = []
-    sizes = list(range(100, 126)) + list(range(230, 251)) + [0, 1, 2000] if ctx.thorough else [0, 1, 105, 110, 111, 112, 120, 236, 238, 239, 240, 2000]
+    # SET request = 13 bytes + data; ciphered content = 1 (security control) + 4 (counter) + plain + 12 (tag): the content
+    # length crosses the one-/two-/three-byte length-prefix boundaries (127/128, 255/256) at data sizes 97/98 and 225/226
+    edge = [n - 30 for n in (126, 127, 128, 129, 130, 254, 255, 256, 257, 258)]
+    sizes = sorted(set(list(range(90, 126)) + list(range(220, 251)) + [0, 1, 2000] + edge)) if ctx.thorough else [0, 1, 105, 111, 120, 238, 2000] + edge
     for suite in (0, 1, 2):
         ek, ak = cc.keys(suite)
         for cic in (0, 1, 4294967294, 77):
